@@ -93,3 +93,113 @@ def evaluate(engine, root, text, data, salt=0, allow=None, statement_cache=None)
             pass
         return engine.copy(opts)(text).evaluate(data=data, context=ctx)
     return engine(text, options=opts).evaluate(data=data, context=ctx)
+
+
+# ---- naming conventions: several in one process, any creation order ---------------------------------------------------
+#
+# A context translates python names into the names expressions use with ITS naming convention (CamelCaseConvention by
+# default, PythonConvention, or none).  The translated names are written into definition objects when a context
+# registers the library, so what a context of one convention promises must not depend on which other contexts were
+# created before it in the same process.  A check that wants this dimension
+#   * runs its cases in worker processes whose FIRST action is `create_roots(order)` for one of `CONV_ORDERS` (a
+#     process can only have one "first": one pool per order, e.g. multiprocessing Pool(initializer=...)),
+#   * evaluates a case written with the documented (camelCase) names in the root of convention `conv` after
+#     `respell(text, conv, naming_table(..))`: function / method names (a word in front of `(`) and keyword-argument
+#     names (a word in front of `=>`) as that convention promises them - the promise is computed from the SOURCE TEXT of
+#     the decorators by the transcription in gens/registry.py, never read from the definitions under test.
+
+CONV_ORDERS = (('camel', 'python'), ('python', 'camel'), ('none', 'camel', 'python'), ('python', 'none', 'camel', 'python'))
+CONV_HIST = {}
+
+
+def make_context(conv):
+    import gens.registry as greg
+    return greg.make_context(conv)
+
+
+def create_roots(order):
+    """one root context per entry of `order`, created in this order, all kept alive -> {convention: the LAST root
+    created with it} (key '__all__': every root, in creation order)"""
+    roots, every = {}, []
+    for conv in order:
+        r = make_context(conv)
+        every.append(r)
+        roots[conv] = r
+    roots['__all__'] = every
+    return roots
+
+
+_TABLE = {}
+
+
+def naming_table(root=None):
+    """-> dict(functions={documented name: {convention: set of promised names}}, keywords={..same for keyword names..},
+    by_payload={(module, python name): {convention: promised function name}}) over every definition of the standard
+    library; 'camel' is the documented spelling the texts of the checks are written in"""
+    if _TABLE:
+        return _TABLE
+    import gens.registry as greg
+    root = root if root is not None else make_context('camel')
+    fn, kw, byp = {}, {}, {}
+    for _, name, fd in greg.all_definitions(root):
+        d = greg.declared(fd.payload)
+        orig = getattr(fd.payload, '__yaql_function__', None)
+        decl_name = d['name'] if d is not None and not d['dyn'] else (orig.name if orig is not None else None)
+        reg_as = name if d is not None and name in d['reg_names'] else None
+        names = {c: greg.promised_name(c, reg_as, decl_name, fd.payload.__name__) for c in ('camel', 'python')}
+        e = fn.setdefault(names['camel'], {'camel': set(), 'python': set()})
+        for c in names:
+            e[c].add(names[c])
+        byp[(fd.payload.__module__, fd.payload.__name__)] = names
+        for k, p in fd.parameters.items():
+            if k in ('*', '**'):
+                continue
+            da = greg.declared_alias(fd, p)
+            ks = {c: greg.promised_kw(c, da, p.name) for c in ('camel', 'python')}
+            e = kw.setdefault(ks['camel'], {'camel': set(), 'python': set()})
+            for c in ks:
+                e[c].add(ks[c])
+    _TABLE.update(functions=fn, keywords=kw, by_payload=byp)
+    return _TABLE
+
+
+_WORD_CALL = re.compile(r'(?<![\w$#])([^\W\d]\w*)(?=\()')
+_WORD_KW = re.compile(r'(?<![\w$#.])([^\W\d]\w*)(?=\s*=>)')
+
+
+def respell(text, conv, table=None, overrides=None):
+    """`text` (documented camelCase names) as a context of convention `conv` promises to understand it.  A name with
+    several promised spellings (overloads registered under different names) must be settled by `overrides`
+    ({documented name: spelling}); names the table does not know are left as written."""
+    if conv == 'camel':
+        return text
+    table = table or naming_table()
+    overrides = overrides or {}
+
+    def sub(kind):
+        def f(m):
+            w = m.group(1)
+            if w in overrides:
+                return overrides[w]
+            e = table[kind].get(w)
+            if e is None:
+                return w
+            if len(e[conv]) != 1:
+                raise ValueError('%r has several spellings under %s: %s' % (w, conv, sorted(e[conv])))
+            return next(iter(e[conv]))
+        return f
+    return _WORD_KW.sub(sub('keywords'), _WORD_CALL.sub(sub('functions'), text))
+
+
+def _table_job():
+    t = naming_table()
+    return dict(t)
+
+
+def naming_table_in_child():
+    """computes `naming_table()` in a forked child (so that THIS process creates no context) and installs it here"""
+    if not _TABLE:
+        import multiprocessing
+        with multiprocessing.get_context('fork').Pool(1) as pool:
+            _TABLE.update(pool.apply(_table_job))
+    return _TABLE
